@@ -22,6 +22,7 @@ from __future__ import absolute_import
 import re
 import spyne
 import datetime
+import operator
 
 from spyne.model import SimpleModel
 from spyne.model.primitive import NATIVE_MAP
@@ -80,13 +81,27 @@ class Time(SimpleModel):
 
     @staticmethod
     def validate_native(cls, value):
-        return SimpleModel.validate_native(cls, value) and (
-            value is None or (
-                (cls.Attributes.gt is None or value >  cls.Attributes.gt)
-                and value >= cls.Attributes.ge
-                and (cls.Attributes.lt is None or value <  cls.Attributes.lt)
-                and value <= cls.Attributes.le
-            ))
+        if not SimpleModel.validate_native(cls, value):
+            return False
+
+        if value is None:
+            return True
+
+        def _cmp_value(bound):
+            # a time with a zone can't be compared with a bound without one
+            # (and vice versa): compare the time of day then.
+            if (value.tzinfo is None) != (bound.tzinfo is None):
+                return value.replace(tzinfo=None), bound.replace(tzinfo=None)
+            return value, bound
+
+        for bound, op in ((cls.Attributes.gt, operator.gt),
+                          (cls.Attributes.ge, operator.ge),
+                          (cls.Attributes.lt, operator.lt),
+                          (cls.Attributes.le, operator.le)):
+            if bound is not None and not op(*_cmp_value(bound)):
+                return False
+
+        return True
 
 _min_dt = datetime.datetime.min.replace(tzinfo=spyne.LOCAL_TZ)
 _max_dt = datetime.datetime.max.replace(tzinfo=spyne.LOCAL_TZ)
